@@ -637,17 +637,26 @@ theorem dqstring_ok (w r : List Char) (h : dqOk w = true) :
   show P e_doublequotedstring _ _ _
   exact dqs_ok w r h
 
+/-- The closing quote ends a possible timestamp prefix: what follows it does not matter. -/
+theorem tsPrefix5_quote (w s : List Char) : tsPrefix5 (w ++ '"' :: s) = tsPrefix5 (w ++ ['"']) := by
+  match w with
+  | [] => simp [tsPrefix5, isDigit]
+  | [a] => simp [tsPrefix5, isDigit]
+  | [a, b] => simp [tsPrefix5, isDigit]
+  | [a, b, c] => simp [tsPrefix5, isDigit]
+  | [a, b, c, d] => simp [tsPrefix5]
+  | a :: b :: c :: d :: e :: rest => simp [tsPrefix5]
+
 /-- The double-quoted alternative of `item`: the capture is the whole literal with its quotes. -/
-theorem item_dq_ok (w r : List Char) (d : Char) (h : dqOk w = true) (hdig : NotHead isDigit w) (_hd : Delim d) :
+theorem item_dq_ok (w r : List Char) (d : Char) (h : dqOk w = true)
+    (hts0 : tsPrefix5 (w ++ ['"']) = false) (_hd : Delim d) :
     P (.ref R.item) ('"' :: (w ++ '"' :: d :: r)) (d :: r)
       [.text ('"' :: (w ++ ['"'])), .act .addQuotedVal] := by
   apply Parses.ref
   show P e_item _ _ _
   simp only [e_item, alts, seqs]
   have hts : tsPrefix5 (w ++ '"' :: d :: r) = false := by
-    cases w with
-    | nil => simp [tsPrefix5, isDigit]
-    | cons x xs => simp only [NotHead] at hdig; simp [tsPrefix5, hdig]
+    rw [tsPrefix5_quote]; exact hts0
   refine Parses.alt_right (Fails.seq_left (lit_fails_head _ '"' _ ⟨_, _, rfl, by decide⟩))
     (Parses.alt_right (Fails.seq_left (lit_fails_head _ '"' _ ⟨_, _, rfl, by decide⟩))
     (Parses.alt_right (Fails.seq_left (lit_fails_head _ '"' _ ⟨_, _, rfl, by decide⟩))
@@ -1082,8 +1091,8 @@ theorem value_fails_eq (t : List Char) : F (.ref R.value) ('=' :: t) := by
   exact Fails.seq_left (Fails.chr_ne _ (by decide))
 
 
-/-- The comparison operators `Condition.String` prints (BETWEEN takes a list and is not in the flat fragment). -/
-def cmpOps : List Op := [.EQ, .NEQ, .LT, .LTE, .GT, .GTE]
+/-- The operators `Condition.String` prints. -/
+def cmpOps : List Op := [.EQ, .NEQ, .LT, .LTE, .GT, .GTE, .BETWEEN]
 
 theorem cond_ok (op : Op) (hop : op ∈ cmpOps) (r : List Char) :
     P (.ref R.COND) (opText op ++ ' ' :: r) (' ' :: r) [.act (.setCond op)] := by
@@ -1108,7 +1117,7 @@ theorem cond_ok (op : Op) (hop : op ∈ cmpOps) (r : List Char) :
   have g1 : ∀ (a x : Char) (o : Op) (s : List Char), x ≠ a → F (.seq (.chr a) (.act (.setCond o))) (x :: s) := by
     intro a x o s h; exact Fails.seq_left (Fails.chr_ne s h)
   simp only [cmpOps, List.mem_cons, List.not_mem_nil, or_false] at hop
-  rcases hop with rfl | rfl | rfl | rfl | rfl | rfl <;> simp only [opText, List.cons_append, List.nil_append]
+  rcases hop with rfl | rfl | rfl | rfl | rfl | rfl | rfl <;> simp only [opText, List.cons_append, List.nil_append]
   · -- ==
     exact Parses.alt_right (f1 _ _ _ _ _ (by decide)) (Parses.alt_right (f1 _ _ _ _ _ (by decide))
       (Parses.alt_right (f1 _ _ _ _ _ (by decide)) (Parses.alt_left (two _ _ _ _))))
@@ -1129,12 +1138,14 @@ theorem cond_ok (op : Op) (hop : op ∈ cmpOps) (r : List Char) :
   · -- >=
     exact Parses.alt_right (f2 _ _ _ _ _ (by decide)) (Parses.alt_right (f1 _ _ _ _ _ (by decide))
       (Parses.alt_left (two _ _ _ _)))
+  · -- ><
+    exact Parses.alt_left (two _ _ _ _)
 
 
 theorem opText_head (op : Op) (hop : op ∈ cmpOps) :
     ∃ c t, opText op = c :: t ∧ isWs c = false ∧ (c = '=' → op = .EQ) := by
   simp only [cmpOps, List.mem_cons, List.not_mem_nil, or_false] at hop
-  rcases hop with rfl | rfl | rfl | rfl | rfl | rfl <;> exact ⟨_, _, rfl, by decide, by decide⟩
+  rcases hop with rfl | rfl | rfl | rfl | rfl | rfl | rfl <;> exact ⟨_, _, rfl, by decide, by decide⟩
 
 /-- `field op value`: the second alternative of `arg` (the first one fails). -/
 theorem arg_cond_ok {key vs rest : List Char} {evs : List Ev} (op : Op) (hop : op ∈ cmpOps)
@@ -1162,6 +1173,123 @@ theorem arg_cond_ok {key vs rest : List Char} {evs : List Ev} (op : Op) (hop : o
   · have h3 := cond_ok op hop vs
     have h4 : P (.ref R.sp) (' ' :: vs) vs [] := sp_one hv
     simpa using Parses.seq h1 (Parses.seq h2 (Parses.seq h3 (Parses.seq h4 h)))
+
+
+theorem intDigits_no_dot (i : Int) : '.' ∉ intDigits i := by
+  have hd := (natDigits_spec i.natAbs).2.2
+  have hdot : '.' ∉ natDigits i.natAbs := fun hm => by
+    have := hd _ hm; simp [isDigit] at this
+  simp only [intDigits]
+  split
+  · simp only [List.mem_cons, not_or]; exact ⟨by decide, hdot⟩
+  · exact hdot
+
+theorem numVal_intDigits (i : Int) (h1 : minInt64 ≤ i) (h2 : i ≤ maxInt64) :
+    numVal (intDigits i) = .ok (.int i) := by
+  simp [numVal, intDigits_no_dot i, parseInt64_intDigits i h1 h2]
+
+theorem intDigits_shape (i : Int) :
+    intDigits i = signText (decide (i < 0)) ++ natDigits i.natAbs := by
+  simp only [intDigits, signText]
+  split <;> simp_all
+
+theorem joinWith_cons (sep x : List Char) (xs : List (List Char)) :
+    joinWith sep (x :: xs) = x ++ xs.flatMap (sep ++ ·) := by
+  induction xs generalizing x with
+  | nil => simp [joinWith]
+  | cons y ys ih => simp [joinWith, ih]
+
+/-! ### Lists of integers (id lists, BETWEEN ranges): syntax -/
+
+/-- A printed list element: an int64 (the elements of id lists and of BETWEEN ranges). -/
+def intItemText (i : Int) : List Char := intDigits i
+
+def evIntItem (i : Int) : List Ev := [.text (intDigits i), .act .addNumVal]
+
+theorem intDigits_head (i : Int) (s : List Char) :
+    ∃ c t, intDigits i ++ s = c :: t ∧ (c = '-' ∨ isDigit c = true) := by
+  obtain ⟨_, hne, hall⟩ := natDigits_spec i.natAbs
+  rw [intDigits_shape]
+  exact num_text_head _ _ s hne hall
+
+theorem intDigits_noWs (i : Int) (s : List Char) : NoWs (intDigits i ++ s) := by
+  obtain ⟨c, t, hx, hc⟩ := intDigits_head i s
+  rw [hx]
+  rcases hc with rfl | hd
+  · simp [NoWs, isWs]
+  · simp only [NoWs]
+    cases hw : isWs c with
+    | false => rfl
+    | true =>
+      simp only [isWs, Bool.or_eq_true, decide_eq_true_eq] at hw
+      rcases hw with (rfl | rfl) | rfl <;> simp [isDigit] at hd
+
+theorem item_intDigits (i : Int) (d : Char) (r : List Char) (hd : Delim d) :
+    P (.ref R.item) (intDigits i ++ d :: r) (d :: r) (evIntItem i) := by
+  obtain ⟨_, hne, hall⟩ := natDigits_spec i.natAbs
+  have h := item_int_ok (decide (i < 0)) (natDigits i.natAbs) r d hne hall hd
+  rw [← intDigits_shape] at h
+  exact h
+
+/-- `list` on the elements printed by `joinInterfaceSlice` (joined with ",") up to the closing `]`. -/
+theorem list_ok (xs : List Int) (hne : xs ≠ []) (r : List Char) :
+    P (.ref R.list) (joinWith [','] (xs.map intDigits) ++ ']' :: r) (']' :: r) (xs.flatMap evIntItem) := by
+  induction xs with
+  | nil => exact absurd rfl hne
+  | cons x rest ih =>
+    apply Parses.ref
+    show P e_list _ _ _
+    simp only [e_list, seqs]
+    cases rest with
+    | nil =>
+      simp only [List.map, joinWith, List.flatMap_cons, List.flatMap_nil, List.append_nil]
+      have h1 := item_intDigits x ']' r (Or.inr (Or.inr rfl))
+      have h2 : P (.opt (.seq (.ref R.comma) (.ref R.list))) (']' :: r) (']' :: r) [] :=
+        Parses.opt_none (Fails.seq_left (comma_fails (by simp [NoWs, isWs]) (by simp [NotHead])))
+      simpa using Parses.seq h1 h2
+    | cons y rest' =>
+      have ihh := ih (by simp)
+      simp only [List.map, joinWith, List.flatMap_cons] at ihh ⊢
+      have h1 := item_intDigits x ',' (joinWith [','] (intDigits y :: rest'.map intDigits) ++ ']' :: r) (Or.inl rfl)
+      have hnw : NoWs (joinWith [','] (intDigits y :: rest'.map intDigits) ++ ']' :: r) := by
+        rw [joinWith_cons]
+        simp only [List.append_assoc]
+        exact intDigits_noWs y _
+      have h2 := Parses.opt_some (Parses.seq (comma_nosp hnw) ihh)
+      simpa [List.append_assoc] using Parses.seq h1 h2
+
+/-- The list alternative of `value` on `[x1,x2,..]`. -/
+theorem value_list_ok (xs : List Int) (hne : xs ≠ []) (d : Char) (r : List Char) (hd : d = ',' ∨ d = ')') :
+    P (.ref R.value) ('[' :: (joinWith [','] (xs.map intDigits) ++ ']' :: d :: r)) (d :: r)
+      ([.act .startList] ++ xs.flatMap evIntItem ++ [.act .endList]) := by
+  have hdws : NoWs (d :: r) := by rcases hd with rfl | rfl <;> simp [NoWs, isWs]
+  apply Parses.ref
+  show P e_value _ _ _
+  simp only [e_value, alts, seqs]
+  refine Parses.alt_right (item_fails_punct '[' _ (by decide)) ?_
+  have hnw : NoWs (joinWith [','] (xs.map intDigits) ++ ']' :: d :: r) := by
+    cases xs with
+    | nil => exact absurd rfl hne
+    | cons x rest =>
+      rw [List.map_cons, joinWith_cons]
+      simp only [List.append_assoc]
+      exact intDigits_noWs x _
+  have h1 : P (.ref R.lbrack) ('[' :: (joinWith [','] (xs.map intDigits) ++ ']' :: d :: r))
+      (joinWith [','] (xs.map intDigits) ++ ']' :: d :: r) [] := by
+    apply Parses.ref
+    show P e_lbrack _ _ _
+    simp only [e_lbrack, seqs, lit]
+    simpa using Parses.seq (Parses.chr '[' _) (sp_nil hnw)
+  have h2 := Parses.act (rule := Gen.rule) .startList (joinWith [','] (xs.map intDigits) ++ ']' :: d :: r)
+  have h3 := list_ok xs hne (d :: r)
+  have h4 : P (.ref R.rbrack) (']' :: d :: r) (d :: r) [] := by
+    apply Parses.ref
+    show P e_rbrack _ _ _
+    simp only [e_rbrack, seqs, lit]
+    have a : P (.ref R.sp) (']' :: d :: r) (']' :: d :: r) [] := sp_nil (by simp [NoWs, isWs])
+    simpa using Parses.seq a (Parses.seq (Parses.chr ']' (d :: r)) (sp_nil hdws))
+  have h5 := Parses.act (rule := Gen.rule) .endList (d :: r)
+  simpa using Parses.seq h1 (Parses.seq h2 (Parses.seq h3 (Parses.seq h4 h5)))
 
 
 /-! ### The action machine on the events of a flat call -/
@@ -1218,14 +1346,122 @@ theorem exec_field (k : Key) (q : QState) (e : Elem) (rest : List Elem) (evs : L
   simp
 
 
+/-! ### Lists of integers: the action machine -/
+
+theorem insert_insert (k : Key) (v1 v2 : Val) (m : List (Key × Val)) :
+    insert k v2 (insert k v1 m) = insert k v2 m := by
+  induction m with
+  | nil => simp [insert]
+  | cons p rest ih =>
+    obtain ⟨k0, v0⟩ := p
+    simp only [insert]
+    by_cases h0 : k0 = k
+    · simp [h0, insert]
+    · simp only [h0, if_false]
+      by_cases hl : ltKey k k0 = true
+      · simp [hl, insert]
+      · simp only [hl, Bool.false_eq_true, if_false, insert, h0, ih]
+
+/-- The value under construction while a list is read: a plain list, or a condition on a list. -/
+def wrapList (op : Op) (vs : List Val) : Val :=
+  if op = .ILLEGAL then .list vs else .cond op (.list vs)
+
+theorem lookup_insert_self (k : Key) (v : Val) (m : List (Key × Val)) : lookup k (insert k v m) = some v := by
+  rw [lookup_insert]; simp
+
+/-- Executing the elements of a list appends them to the list under the pending key. -/
+theorem exec_list_items (xs : List Int) (hx : ∀ x ∈ xs, minInt64 ≤ x ∧ x ≤ maxInt64)
+    (k : Key) (hk : k ≠ []) (m0 : List (Key × Val)) (acc : List Val)
+    (q : QState) (e : Elem) (rest : List Elem) (evs : List Ev)
+    (hq : q.stack = e :: rest) (hin : e.inList = true) (hf : e.lastField = k)
+    (ha : e.args = insert k (wrapList e.lastCond acc) m0) :
+    ∃ t, exec (xs.flatMap evIntItem ++ evs) q =
+      exec evs { q with text := t,
+                        stack := { e with args := insert k (wrapList e.lastCond (acc ++ xs.map Val.int)) m0 } :: rest } := by
+  induction xs generalizing q e acc with
+  | nil =>
+    refine ⟨q.text, ?_⟩
+    simp only [List.flatMap_nil, List.nil_append, List.map_nil, List.append_nil]
+    congr 1
+    cases q; cases e; simp_all
+  | cons x rest' ih =>
+    obtain ⟨h1, h2⟩ := hx x (by simp)
+    simp only [List.flatMap_cons, evIntItem, List.cons_append, List.nil_append]
+    rw [exec_text]
+    have hs : stepAct { q with text := intDigits x } .addNumVal =
+        .ok { q with text := intDigits x,
+                     stack := { e with args := insert k (wrapList e.lastCond (acc ++ [.int x])) m0 } :: rest } := by
+      simp only [stepAct, addNumVal, hq, hf, numVal_intDigits x h1 h2]
+      by_cases hc : e.lastCond = .ILLEGAL
+      · simp [hk, hin, hc, ha, wrapList, lookup_insert_self, insert_insert, bind, Except.bind]
+      · simp [hk, hin, hc, ha, wrapList, lookup_insert_self, insert_insert, bind, Except.bind]
+    rw [exec_act_ok _ hs]
+    obtain ⟨t, ht⟩ := ih (fun y hy => hx y (by simp [hy])) (acc ++ [.int x])
+      { q with text := intDigits x,
+               stack := { e with args := insert k (wrapList e.lastCond (acc ++ [.int x])) m0 } :: rest }
+      { e with args := insert k (wrapList e.lastCond (acc ++ [.int x])) m0 } rfl hin hf rfl
+    refine ⟨t, ?_⟩
+    rw [ht]
+    simp [List.append_assoc]
+
+/-- Executing `startList items endList` stores the list (or the condition on it) under the pending key. -/
+theorem exec_list (xs : List Int) (hx : ∀ x ∈ xs, minInt64 ≤ x ∧ x ≤ maxInt64)
+    (k : Key) (hk : k ≠ []) (q : QState) (e : Elem) (rest : List Elem) (evs : List Ev)
+    (hq : q.stack = e :: rest) (hf : e.lastField = k) (_hin : e.inList = false) (hl : lookup k e.args = none) :
+    ∃ t, exec (.act .startList :: (xs.flatMap evIntItem ++ (.act .endList :: evs))) q =
+      exec evs { q with text := t,
+                        stack := { e with args := insert k (wrapList e.lastCond (xs.map Val.int)) e.args,
+                                          lastField := [], lastCond := .ILLEGAL, inList := false } :: rest } := by
+  have hs : stepAct q .startList =
+      .ok { q with stack := { e with args := insert k (wrapList e.lastCond []) e.args, inList := true } :: rest } := by
+    simp only [stepAct, startList, hq, hf, hl]
+    by_cases hc : e.lastCond = .ILLEGAL <;> simp [hc, wrapList]
+  rw [exec_act_ok _ hs]
+  obtain ⟨t, ht⟩ := exec_list_items xs hx k hk e.args []
+    { q with stack := { e with args := insert k (wrapList e.lastCond []) e.args, inList := true } :: rest }
+    { e with args := insert k (wrapList e.lastCond []) e.args, inList := true } rest (.act .endList :: evs)
+    rfl rfl hf rfl
+  rw [ht]
+  refine ⟨t, ?_⟩
+  let e2 : Elem := { e with args := insert k (wrapList e.lastCond ([] ++ xs.map Val.int)) e.args, inList := true }
+  let e3 : Elem := { e with args := insert k (wrapList e.lastCond (xs.map Val.int)) e.args, lastField := [], lastCond := .ILLEGAL, inList := false }
+  have he : stepAct { q with text := t, stack := e2 :: rest } .endList = .ok { q with text := t, stack := e3 :: rest } := by
+    simp [stepAct, endList, e2, e3]
+  exact exec_act_ok evs he
+
+
+/-- The int64 elements of a list value. -/
+def intsOf : List Val → List Int
+  | [] => []
+  | .int i :: rest => i :: intsOf rest
+  | _ :: rest => intsOf rest
+
+theorem intsOf_map (xs : List Int) : intsOf (xs.map Val.int) = xs := by
+  induction xs with
+  | nil => rfl
+  | cons x rest ih => simp [intsOf, ih]
+
+theorem fmtVals_ints (isPrint : Char → Bool) (xs : List Int) :
+    fmtVals isPrint (xs.map Val.int) = xs.map intDigits := by
+  induction xs with
+  | nil => simp [fmtVals]
+  | cons x rest ih => simp [fmtVals, fmtVal, ih]
+
+/-- A list value of the fragment: a non-empty list of int64. -/
+def IntList (vs : List Val) : Prop :=
+  ∃ xs : List Int, vs = xs.map Val.int ∧ xs ≠ [] ∧ ∀ x ∈ xs, minInt64 ≤ x ∧ x ≤ maxInt64
+
 /-- The values of the flat fragment proved so far: int64, nil, bool, string, and a comparison
-(`==  !=  <  <=  >  >=`) with an int64. -/
+(`==  !=  <  <=  >  >=`) with an int64.  A string is excluded only when its quoted form begins like a
+timestamp (four digits and a dash): then another alternative of `item` reads it. -/
 def SimpleVal (isPrint : Char → Bool) : Val → Prop
   | .int i => minInt64 ≤ i ∧ i ≤ maxInt64
   | .null => True
   | .bool _ => True
-  | .str bs => (∀ b ∈ bs, b < 256) ∧ NotHead isDigit (quoteBody isPrint bs)
+  | .str bs => (∀ b ∈ bs, b < 256) ∧ tsPrefix5 (quoteBody isPrint bs ++ ['"']) = false
   | .cond op (.int i) => op ∈ cmpOps ∧ minInt64 ≤ i ∧ i ≤ maxInt64
+  | .list vs => IntList vs
+  | .cond op (.list vs) => op ∈ cmpOps ∧ IntList vs
   | _ => False
 
 /-- The events the grammar records for a printed value. -/
@@ -1235,23 +1471,12 @@ def evVal (isPrint : Char → Bool) : Val → List Ev
   | .bool b => [.act (.addVal (.bool b))]
   | .str bs => [.text (quote isPrint bs), .act .addQuotedVal]
   | .cond op (.int i) => [.act (.setCond op), .text (intDigits i), .act .addNumVal]
+  | .list vs => .act .startList :: ((intsOf vs).flatMap evIntItem ++ [.act .endList])
+  | .cond op (.list vs) => .act (.setCond op) :: .act .startList :: ((intsOf vs).flatMap evIntItem ++ [.act .endList])
   | _ => []
 
 def evArg (isPrint : Char → Bool) (kv : Key × Val) : List Ev :=
   [.text kv.1, .act (.addField .text)] ++ evVal isPrint kv.2
-
-theorem intDigits_no_dot (i : Int) : '.' ∉ intDigits i := by
-  have hd := (natDigits_spec i.natAbs).2.2
-  have hdot : '.' ∉ natDigits i.natAbs := fun hm => by
-    have := hd _ hm; simp [isDigit] at this
-  simp only [intDigits]
-  split
-  · simp only [List.mem_cons, not_or]; exact ⟨by decide, hdot⟩
-  · exact hdot
-
-theorem numVal_intDigits (i : Int) (h1 : minInt64 ≤ i) (h2 : i ≤ maxInt64) :
-    numVal (intDigits i) = .ok (.int i) := by
-  simp [numVal, intDigits_no_dot i, parseInt64_intDigits i h1 h2]
 
 /-- Executing the events of `key=value` stores the value under the key. -/
 theorem exec_arg (isPrint : Char → Bool) (hnl : isPrint '\n' = false) (k : Key) (v : Val)
@@ -1300,7 +1525,16 @@ theorem exec_arg (isPrint : Char → Bool) (hnl : isPrint '\n' = false) (k : Key
     exact exec_act_ok evs hs
   | uint n => exact absurd hv (by simp [SimpleVal])
   | float t => exact absurd hv (by simp [SimpleVal])
-  | list vs => exact absurd hv (by simp [SimpleVal])
+  | list vs =>
+    obtain ⟨xs, rfl, hxne, hxr⟩ := hv
+    simp only [evVal, intsOf_map, List.cons_append, List.append_assoc, List.nil_append]
+    obtain ⟨t, ht⟩ := exec_list xs hxr k hk { q with text := k, stack := { e with lastField := k } :: rest }
+      { e with lastField := k } rest evs rfl rfl he2 hl
+    refine ⟨t, ?_⟩
+    rw [ht]
+    congr 1
+    cases e
+    simp_all [wrapList]
   | ints xs => exact absurd hv (by simp [SimpleVal])
   | uints xs => exact absurd hv (by simp [SimpleVal])
   | cond op w =>
@@ -1325,7 +1559,23 @@ theorem exec_arg (isPrint : Char → Bool) (hnl : isPrint '\n' = false) (k : Key
     | uint n => exact absurd hv (by simp [SimpleVal])
     | float t => exact absurd hv (by simp [SimpleVal])
     | str bs => exact absurd hv (by simp [SimpleVal])
-    | list vs => exact absurd hv (by simp [SimpleVal])
+    | list vs =>
+      obtain ⟨hop, xs, rfl, hxne, hxr⟩ := hv
+      have hne : op ≠ .ILLEGAL := by
+        intro e'; subst e'; simp [cmpOps] at hop
+      simp only [evVal, intsOf_map, List.cons_append, List.append_assoc, List.nil_append]
+      have hs1 : stepAct { q with text := k, stack := { e with lastField := k } :: rest } (.setCond op) =
+          .ok { q with text := k, stack := { e with lastField := k, lastCond := op } :: rest } := by
+        simp [stepAct, setCond]
+      rw [exec_act_ok _ hs1]
+      obtain ⟨t, ht⟩ := exec_list xs hxr k hk
+        { q with text := k, stack := { e with lastField := k, lastCond := op } :: rest }
+        { e with lastField := k, lastCond := op } rest evs rfl rfl he2 hl
+      refine ⟨t, ?_⟩
+      rw [ht]
+      congr 1
+      cases e
+      simp_all [wrapList]
     | ints xs => exact absurd hv (by simp [SimpleVal])
     | uints xs => exact absurd hv (by simp [SimpleVal])
     | cond op2 v2 => exact absurd hv (by simp [SimpleVal])
@@ -1494,11 +1744,6 @@ theorem fmtCall_flat (isPrint : Char → Bool) (name : List Char) (as : List (Ke
       name ++ '(' :: (joinWith [',', ' '] (as.map (argText isPrint)) ++ [')']) := by
   simp [fmtCall, fmtCalls, joinWith, hn, fmtArgs_simple isPrint as h]
 
-theorem intDigits_shape (i : Int) :
-    intDigits i = signText (decide (i < 0)) ++ natDigits i.natAbs := by
-  simp only [intDigits, signText]
-  split <;> simp_all
-
 /-- A printed simple argument is read by `arg` whatever delimiter follows. -/
 theorem parg_ok (isPrint : Char → Bool) (kv : Key × Val) (hk : FieldName kv.1) (hv : SimpleVal isPrint kv.2) :
     PArg.Ok ⟨argText isPrint kv, evArg isPrint kv⟩ := by
@@ -1555,7 +1800,12 @@ theorem parg_ok (isPrint : Char → Bool) (kv : Key × Val) (hk : FieldName kv.1
     simpa [fmtVal, evVal, quote] using this
   | uint n => exact absurd hv (by simp [SimpleVal])
   | float t => exact absurd hv (by simp [SimpleVal])
-  | list vs => exact absurd hv (by simp [SimpleVal])
+  | list vs =>
+    obtain ⟨xs, rfl, hxne, hxr⟩ := hv
+    have hval := value_list_ok xs hxne d r hd
+    have := arg_eq_ok (vs := '[' :: (joinWith [','] (xs.map intDigits) ++ ']' :: d :: r)) hk'
+      (by simp [NoWs, isWs]) hval
+    simpa [fmtVal, fmtVals_ints, evVal, intsOf_map, List.append_assoc] using this
   | ints xs => exact absurd hv (by simp [SimpleVal])
   | uints xs => exact absurd hv (by simp [SimpleVal])
   | cond op w =>
@@ -1583,7 +1833,12 @@ theorem parg_ok (isPrint : Char → Bool) (kv : Key × Val) (hk : FieldName kv.1
     | uint n => exact absurd hv (by simp [SimpleVal])
     | float t => exact absurd hv (by simp [SimpleVal])
     | str bs => exact absurd hv (by simp [SimpleVal])
-    | list vs => exact absurd hv (by simp [SimpleVal])
+    | list vs =>
+      obtain ⟨hop, xs, rfl, hxne, hxr⟩ := hv
+      have hval := value_list_ok xs hxne d r hd
+      have := arg_cond_ok op hop hk' (vs := '[' :: (joinWith [','] (xs.map intDigits) ++ ']' :: d :: r))
+        (by simp [NoWs, isWs]) hval
+      simpa [fmtVal, fmtVals_ints, evVal, intsOf_map, List.append_assoc] using this
     | ints xs => exact absurd hv (by simp [SimpleVal])
     | uints xs => exact absurd hv (by simp [SimpleVal])
     | cond op2 v2 => exact absurd hv (by simp [SimpleVal])
